@@ -100,6 +100,7 @@ structure DS where
   rs : List Res := []           -- results announced for the next region (C25)
   firstFault : Option String := none
   phantom : List Nat := []      -- header bytes of a block whose header write fails in this region (C25)
+  dur : Nat := 0                -- how many of `wr` a successful Sync/Close has acknowledged (C25)
   respec : Bool := false        -- the file was cut by hand: the next load defines the expected state
 
 def DS.mk' (s : DS) : Mk := fun es =>
@@ -257,6 +258,16 @@ def step (h : Hooks) (s0 : DS) (line : String) : DS × String :=
     let n := nat n
     if s.tickSyncs then
       (s, "tick " ++ showIndex ((List.range n).map fun i => (i + 1, 101 + i)))
+    else (s, "tick -\t#F:C02-ack-not-durable")
+  | ["tick0", n] =>
+    let n := nat n
+    if s.tickSyncs then
+      (s, "tick " ++ showIndex ((List.range n).map fun i => (i + 1, 101 + i)))
+    else (s, "tick -\t#F:C02-ack-not-durable")
+  | ["tickdel", n] =>
+    let n := nat n
+    if s.tickSyncs then
+      (s, "tick " ++ showIndex ((List.range (n - 1)).map fun i => (i + 1, 101 + i)))
     else (s, "tick -\t#F:C02-ack-not-durable")
   | "cfg" :: rest =>
     let kv := parseArgs rest
